@@ -185,9 +185,13 @@ func c19DoShape(fd *ast.FuncDecl, what, doSuffix string, isWork func(*ast.CallEx
 		if as, ok := st.(*ast.AssignStmt); ok && (callsMethod(as, ".Load") || callsMethod(as, ".load")) {
 			sawLookup = true
 		}
-		if is, ok := st.(*ast.IfStmt); ok && sawLookup && hasReturn(is.Body) {
-			out = append(out, "fast:load-return")
-			sawLookup = false
+		if is, ok := st.(*ast.IfStmt); ok && hasReturn(is.Body) {
+			// `x, ok := m.Load(k); if ok { return … }` or `if x, ok := m.Load(k); ok { return … }`
+			inInit := is.Init != nil && (callsMethod(is.Init, ".Load") || callsMethod(is.Init, ".load"))
+			if sawLookup || inInit {
+				out = append(out, "fast:load-return")
+				sawLookup = false
+			}
 		}
 	}
 	if cb == nil {
